@@ -73,13 +73,20 @@ type File struct {
 	Sync     [16]byte
 	Blocks   []ref.Block
 	Meta     []ref.MetaEntry
+	// Big files are read intact and at block boundaries only (no per-byte cut / per-bit damage sweep of the payload)
+	Big bool
 }
 
 var famSync = [16]byte{0xde, 0xad, 0xbe, 0xef, 0x10, 0x32, 0x54, 0x76, 0x98, 0xba, 0xdc, 0xfe, 0x01, 0x23, 0x45, 0x67}
 
 // Build writes one file with the reference writer.
 func Build(sc SchemaCase, codec string, comp []int, recs []ref.Datum) File {
-	f := File{SC: sc, Codec: codec, Comp: comp, Sync: famSync}
+	return BuildSync(sc, codec, comp, recs, famSync)
+}
+
+// BuildSync is Build with a chosen sync marker.
+func BuildSync(sc SchemaCase, codec string, comp []int, recs []ref.Datum, sync [16]byte) File {
+	f := File{SC: sc, Codec: codec, Comp: comp, Sync: sync}
 	pos := 0
 	for _, n := range comp {
 		var payload []byte
@@ -118,6 +125,29 @@ func Family(maxRecs int) []File {
 					fs = append(fs, Build(sc, codec, comp, recs))
 				}
 			}
+		}
+	}
+	// sync markers with special shapes (all legal): ending in zero bytes, all zero, all 0xff
+	for si, sy := range [][16]byte{{0xde, 0xad, 0xbe, 0xef, 1, 2, 3, 4, 5, 6, 7, 8, 9, 10, 0, 0}, {}, {0xff, 0xff, 0xff, 0xff, 0xff, 0xff, 0xff, 0xff, 0xff, 0xff, 0xff, 0xff, 0xff, 0xff, 0xff, 0xff}} {
+		sc := Schemas()[1]
+		for _, codec := range []string{"null", "deflate", "snappy"} {
+			f := BuildSync(sc, codec, []int{1, 2}, sc.Records, sy)
+			f.Name += fmt.Sprintf("/sync-variant-%d", si)
+			fs = append(fs, f)
+		}
+	}
+	// a block that compresses far better than 32:1 (3000 identical records)
+	{
+		sc := Schemas()[2]
+		recs := make([]ref.Datum, 3001)
+		for i := range recs {
+			recs[i] = sc.Records[1]
+		}
+		for _, codec := range []string{"deflate", "snappy"} {
+			f := Build(sc, codec, []int{3000, 1}, recs)
+			f.Name += "/highly-compressible"
+			f.Big = true
+			fs = append(fs, f)
 		}
 	}
 	sc := Schemas()[1]
